@@ -105,7 +105,7 @@ RPrepareFinished(r) == RPrepareFinishedLoc(r, FALSE)
 RCancel0(r, C) ==
   LET r1 == [r EXCEPT !.st = "Canc", !.tNak = CPause(r.tNak, RToNak(C), C.limit)]
       r2 == IF RIsAck(C) THEN RPrepareFinished(r1)
-            ELSE RShutdown(IF r1.closure THEN RPrepareFinished(r1) ELSE r1, C)
+            ELSE IF r1.closure THEN RPrepareFinished(r1) ELSE RShutdown(r1, C)
   IN [r |-> r2, ind |-> <<RFinishedInd(r2, <<>>)>>]
 
 RAbandon(r, C) ==
